@@ -119,6 +119,13 @@ func (l *Lexer) NextToken() Token {
 	default:
 		if isIdentifierLetter(l.ch) {
 			tok.Literal = l.readIdentifier()
+			if tok.Literal == ":" || tok.Literal == "#" {
+				// a placeholder sign without a name
+				tok.Type = ILLEGAL
+
+				return tok
+			}
+
 			tok.Type = LookupIdent(tok.Literal)
 
 			if tok.Type != IDENT {
@@ -137,10 +144,15 @@ func (l *Lexer) NextToken() Token {
 	return tok
 }
 
+// readIdentifier reads a name ([A-Za-z0-9_]+), or a placeholder: '#' or ':' followed by a name
 func (l *Lexer) readIdentifier() string {
 	position := l.position
 
-	for isIdentifierLetter(l.ch) {
+	if l.ch == ':' || l.ch == '#' {
+		l.readChar()
+	}
+
+	for isLetter(l.ch) || '0' <= l.ch && l.ch <= '9' || l.ch == '_' {
 		l.readChar()
 	}
 
